@@ -21,6 +21,13 @@ def sh(cmd, cwd=None, timeout=3600):
 
 def fresh():
     os.makedirs(CF, exist_ok=True)
+    # every demo leaves a test binary behind: keep the scratch build output from filling the disk
+    rc, out = sh(f"du -s --block-size=1G {CF}/rtarget 2>/dev/null")
+    try:
+        if rc == 0 and int(out.split()[0]) > 12:
+            shutil.rmtree(f"{CF}/rtarget", ignore_errors=True)
+    except (ValueError, IndexError):
+        pass
     # compare by checksum and do NOT preserve times: a file whose content changes gets a fresh mtime
     # (cargo decides by mtime), an unchanged file keeps its own
     sh(f"rsync -rlpc --delete --exclude target --exclude .git /repo/ {CF}/repo/")
@@ -29,7 +36,7 @@ def fresh():
         shutil.copy("/verif/harness/Cargo.toml", f"{CF}/harness/Cargo.toml")
         sh(f"sed -i 's#\"/repo#\"{CF}/repo#' {CF}/harness/Cargo.toml")
 
-EXTRA = {"C01": ["vp-mojang", "vp-net"], "C06": ["vp-net"], "C10": ["vp-net"], "C14": ["vp-conn"], "C15": ["vp-grpc"], "C03": ["vp-net"], "C11": ["vp-mojang", "vp-conn"], "C05": ["vp-conn", "vp-net"], "C13": ["vp-net"], "C02": ["vp-net"], "C12": ["vp-conn"], "C18": ["vp-conn"], "C04": ["vp-net"], "C08": ["vp-net"]}  # sub-runs that ./check performs for a property besides its main monitor
+EXTRA = {"C01": ["vp-mojang", "vp-net"], "C06": ["vp-net"], "C10": ["vp-net"], "C14": ["vp-conn"], "C15": ["vp-grpc"], "C03": ["vp-net"], "C11": ["vp-mojang", "vp-conn"], "C05": ["vp-conn", "vp-net"], "C13": ["vp-net"], "C02": ["vp-net"], "C12": ["vp-conn"], "C18": ["vp-conn"], "C04": ["vp-net"], "C08": ["vp-net"], "C09": ["vp-conn"]}  # sub-runs that ./check performs for a property besides its main monitor
 
 def run_one(pkg, prop, tier):
     rc, out = sh(f"CARGO_TARGET_DIR={CF}/htarget cargo build --offline --profile verif -p {pkg}", cwd=f"{CF}/harness")
